@@ -468,6 +468,21 @@ def mode_agreement(ctx, a_rows, s_rows):
     ctx.floor('T-SKIP.modes', 'headers compared', n, 10)
 
 
+def twins_only(ctx):
+    """the configuration-identity part of the skip() argument, for C20: both builds' transfer tables and their agreement"""
+    ctx.rules_run.append('T-SKIP.twins (from C06): the alloc build of skip() restricted to counting mode and the no-alloc build have the same one-iteration transfer function '
+                         '(result class, bytes consumed, counter updates per initial-byte class), except where the no-alloc build must refuse (indefinite container inside a definite one)')
+    pa = load.program('core-full')
+    pn = load.program('core-none')
+    a_rows = arm_table(ctx, pa, 'alloc', counting=True)
+    n_rows = arm_table(ctx, pn, 'no-alloc', counting=True)
+    if not a_rows or not n_rows:
+        ctx.fail_closed('T-SKIP.twins', 'the transfer table of one build of skip() could not be extracted')
+        return
+    k = twin_agreement(ctx, a_rows, n_rows)
+    ctx.floor('T-SKIP.twins', 'compared cells', k, 40)
+
+
 def run(ctx):
     ctx.rules_run.append('T-SKIP: one-iteration transfer table of skip() from symbolic counters: consumption per initial-byte class = RFC head length (+ payload / break), reserved heads rejected, truncation = end-of-input, tags bypass the counters')
     pa = load.program('core-full')
